@@ -95,6 +95,13 @@ func main() {
 				pos := fset.Position(st.Pos())
 				sites = append(sites, site{id: id, file: name, line: pos.Line, fn: curFn, kind: stmtKind(st, kind)})
 				ins = append(ins, insertion{off: pos.Offset, text: fmt.Sprintf("_vfStep(%d); ", id), ord: 0})
+				// `defer X.Unlock()`: the release is reported when the deferred call runs
+				if ds, ok := st.(*ast.DeferStmt); ok && !noLocks && len(ds.Call.Args) == 0 {
+					if sel, ok := ds.Call.Fun.(*ast.SelectorExpr); ok && (sel.Sel.Name == "Unlock" || sel.Sel.Name == "RUnlock") {
+						ins = append(ins, insertion{off: fset.Position(ds.Call.Pos()).Offset, text: "func() { _vfLockReleased(); ", ord: 1})
+						ins = append(ins, insertion{off: fset.Position(ds.Call.End()).Offset, text: " }()", ord: -2})
+					}
+				}
 				// `X.Lock()` / `X.RLock()` as a statement becomes a cooperative try-lock loop, so that a
 				// task preempted inside a critical section does not hang the (single-threaded) simulation
 				if es, ok := st.(*ast.ExprStmt); ok && !noLocks {
@@ -107,8 +114,14 @@ func main() {
 							ins = append(ins, insertion{off: pos.Offset, text: "for !", ord: 1})
 							selOff := fset.Position(sel.Sel.Pos()).Offset
 							endOff := fset.Position(call.End()).Offset
-							ins = append(ins, insertion{off: selOff, text: try + "() { _vfBlocked() }", ord: 0, del: endOff - selOff})
+							ins = append(ins, insertion{off: selOff, text: try + "() { _vfBlocked() }; _vfLockTaken()", ord: 0, del: endOff - selOff})
 							locksRewritten++
+						}
+					}
+					// `X.Unlock()` / `X.RUnlock()` as a statement: tell the simulator first
+					if call, ok := es.X.(*ast.CallExpr); ok && len(call.Args) == 0 {
+						if sel, ok := call.Fun.(*ast.SelectorExpr); ok && (sel.Sel.Name == "Unlock" || sel.Sel.Name == "RUnlock") {
+							ins = append(ins, insertion{off: pos.Offset, text: "_vfLockReleased(); ", ord: 1})
 						}
 					}
 					// `X.Do(f)` as a statement (sync.Once): callers that arrive while another task is inside Do
@@ -257,6 +270,21 @@ func _vfBlocked() {
 		return
 	}
 	runtime.Gosched()
+}
+
+// VfLockTaken / VfLockReleased, when non-nil, report cooperative lock acquisition and release (simulation only).
+var VfLockTaken, VfLockReleased func()
+
+func _vfLockTaken() {
+	if f := VfLockTaken; f != nil {
+		f()
+	}
+}
+
+func _vfLockReleased() {
+	if f := VfLockReleased; f != nil {
+		f()
+	}
 }
 
 // VfOnceEnter / VfOnceExit, when non-nil, bracket every X.Do(f) statement (simulation only).
